@@ -390,9 +390,12 @@ func runSite(sc siteCase, withForeign bool) (res siteResult) {
 		pfx + "secure-verify-ca-secret": "ca",
 	}
 	bTLS := &crtName
-	if sc.site == "gwcert" {
+	if sc.site == "gwcert" && sc.form != "fileb" {
 		// a Gateway change asks for a full sync, which converts b's ingress again in the same
-		// reconciliation: keep b/crt out of b's own ingress so that a read of it is the Gateway's
+		// reconciliation: keep b/crt out of b's own ingress so that a read of it is the Gateway's.
+		// (form fileb needs the controller's copy of b/crt on disk, i.e. b's ingress using it; a
+		// file:// value cannot make the getter read a Secret — the file branch returns before —
+		// so for that form the reads of b/crt are b's own and are not attributed to the Gateway)
 		delete(bAnn, pfx+"secure-crt-secret")
 		bTLS = nil
 	}
@@ -478,6 +481,9 @@ func runSite(sc siteCase, withForeign bool) (res siteResult) {
 				res.readFor = true
 			}
 		}
+	}
+	if sc.site == "gwcert" && sc.form == "fileb" {
+		res.readFor = false
 	}
 	res.dyn = dynStr(env.Dyn)
 	res.dump, res.target = dumpA(env, sc)
@@ -650,7 +656,7 @@ func siteForms(site string) []string {
 	if siteKind(site) == "svc" {
 		return []string{"n", "own", "other"}
 	}
-	if siteKind(site) == "pw" || site == "gwcert" {
+	if siteKind(site) == "pw" {
 		return []string{"n", "own", "other", "file", "secother", "secown"}
 	}
 	return []string{"n", "own", "other", "file", "fileb", "secother", "secown"}
@@ -664,6 +670,9 @@ func allSettings() []string {
 	return res
 }
 
+// corpus: every replay of a past failure stays here. Repaired in /repo: secure-* (c70e6fc),
+// auth-url FindBackend (05277b5), auth-secret userlist reuse (6c4b527), file:// nil certificate
+// panic (a8c2ec0), Gateway stale permissions (bce3fec).
 func corpus() {
 	// suspected (a): secure-crt-secret / secure-verify-ca-secret hand the TARGET namespace to the getter
 	emitSite(siteCase{"securecrt", "ing", "other", "00000", "0"})
@@ -683,6 +692,12 @@ func corpus() {
 	// the Gateway converter runs before buildGlobalDynamic: allow -> deny is not seen by certificateRefs
 	emitSite(siteCase{"gwcert", "ing", "other", "00000", "2"})
 	emitSite(siteCase{"gwcert", "ing", "other", "01000", "0"})
+	// file:// naming the controller's copy of another namespace's secret: one line per key (known findings)
+	emitSite(siteCase{"tls", "ing", "fileb", "00000", "1"})
+	emitSite(siteCase{"tlstcp", "ing", "fileb", "00000", "1"})
+	emitSite(siteCase{"gwcert", "ing", "fileb", "00000", "1"})
+	emitSite(siteCase{"securecrt", "ing", "fileb", "00000", "1"})
+	emitSite(siteCase{"secureca", "svc", "fileb", "00000", "1"})
 	// each key opens only its kind
 	emitSite(siteCase{"tls", "ing", "other", "00110", "0"})
 	emitSite(siteCase{"authtls", "ing", "other", "01011", "0"})
